@@ -330,7 +330,8 @@ def build(spec):
         alleles[f"{name}*{nm}"] = y
         truth[nm] = {"sites": idx, "sv": sv}
     if spec.get("random_sites"):
-        alleles["random"] = [entry(i % nsites) for i in spec["random_sites"] if sites and not sites[i % nsites][2]]
+        # variants that "can occur in any allele"; with orphan_core also functional ones that belong to no allele
+        alleles["random"] = [entry(i % nsites) for i in spec["random_sites"] if sites and (spec.get("orphan_core") or not sites[i % nsites][2])]
         if not alleles["random"]:
             del alleles["random"]
 
@@ -368,7 +369,7 @@ KINDS_READS = ["snp", "snp", "snp", "ins", "del", "mnp"]
 
 @st.composite
 def db_specs(draw, kinds=KINDS_READS, max_sites=10, max_alleles=9, sv=True, pseudo=None, dual_opposite=None, gaps=True,
-             chrs=("7",), stress=False, small=False, name="GA", force_sv=False, twins=False):
+             chrs=("7",), stress=False, small=False, name="GA", force_sv=False, twins=False, orphan_core=False):
     n_ex = draw(st.integers(2, 3 if small else 4))
     elen = st.sampled_from([30, 45, 60, 90] if small else [30, 60, 90, 120, 150])
     ilen = st.integers(40, 90) if small else st.integers(40, 220)
@@ -433,7 +434,10 @@ def db_specs(draw, kinds=KINDS_READS, max_sites=10, max_alleles=9, sv=True, pseu
             svs.append({"sites": draw(st.lists(st.integers(0, ns - 1), max_size=2)), "sv": ["custom", draw(st.lists(st.integers(0, 8), min_size=1, max_size=2))]})
         alls += svs
     spec["alleles"] = alls
-    if draw(st.integers(0, 3)) == 0:
+    if orphan_core:
+        spec["orphan_core"] = True
+        spec["random_sites"] = draw(st.lists(st.integers(0, ns - 1), min_size=1, max_size=3))
+    elif draw(st.integers(0, 3)) == 0:
         spec["random_sites"] = draw(st.lists(st.integers(0, ns - 1), min_size=1, max_size=2))
     if draw(st.integers(0, 2)) == 0:
         spec["tandems"] = draw(st.lists(st.tuples(st.integers(0, 6), st.integers(0, 6)).map(list), min_size=1, max_size=2))
